@@ -7,9 +7,10 @@ cd /repo || exit 2
 if [ -n "$(git status --porcelain -- src Cargo.toml)" ]; then echo "/repo has uncommitted changes; refusing"; exit 2; fi
 declare -A CHECKS=(
  [fe45e10]="C08" [dbb8726]="C03" [225a825]="C03" [66efab1]="C03 C11" [ba34e81]="C04 C08" [ddafc01]="C08"
- [0b3c11e]="C16 C04" [b94bba4]="C07" [ee0eba4]="C10" [3239623]="C17" [005a616]="C04" [ab58e82]="C08" [6938621]="C12" [5e77ce5]="C04"
+ [0b3c11e]="C16 C04" [b94bba4]="C07" [ee0eba4]="C10" [3239623]="C17" [005a616]="C04" [ab58e82]="C08" [6938621]="C12" [5e77ce5]="C04" [c575c79]="C08" [41d12e8]="C04" [a8e785f]="C17"
 )
-for H in fe45e10 dbb8726 225a825 66efab1 ba34e81 ddafc01 0b3c11e b94bba4 ee0eba4 3239623 005a616 ab58e82 6938621 5e77ce5; do
+ALL="fe45e10 dbb8726 225a825 66efab1 ba34e81 ddafc01 0b3c11e b94bba4 ee0eba4 3239623 005a616 ab58e82 6938621 5e77ce5 c575c79 41d12e8 a8e785f"
+for H in ${@:-$ALL}; do
   if ! git revert --no-commit $H >/dev/null 2>&1; then
     echo "== $H: revert conflicts with later commits (skipped)"; git revert --abort >/dev/null 2>&1; git reset -q --hard HEAD; continue
   fi
